@@ -20,8 +20,14 @@ import json
 import math
 import struct
 
+import os
+import sys
+
 import vv
 import prims_common as pc
+
+sys.path.insert(0, os.path.join(vv.VERIF, "translate"))
+import fitness_ops
 
 NAN = "7ff8000000000000"
 FIELDS = ["lt", "eq", "gt", "ge", "le", "ne", "dom", "mm", "nanA", "finA", "plus", "minus", "times",
@@ -344,11 +350,28 @@ def _build(fn, *a):
             vv.log("snapshot vanished during the build (concurrent gc); retrying")
 
 
+def regen(snap):
+    """coq/Gen/FitnessOps.v from the snapshot's fitness.tcc / model_measurements.h"""
+    text, problems = fitness_ops.generate(snap)
+    if problems:
+        return False, problems
+    with vv.Lock("coq"):
+        vv.write_if_changed(os.path.join(vv.COQ, "Gen", "FitnessOps.v"), text)
+    return True, []
+
+
 def run(ck):
-    _build(vv.build_lib, "asan")
+    L = _build(vv.build_lib, "asan")
+    ok, problems = regen(L["snap"])
+    ck.tie = "regenerated+correspondence" if ok else "correspondence"
+    if not ok:
+        ck.notes.append("translator: " + "; ".join(problems)[:600] +
+                        " -- checked-in Gen/FitnessOps.v kept, tie = correspondence only")
     res = vv.prove("Properties_C18", vv.FLOCQ_AXIOMS)
     ck.add_proof(res)
-    ck.trusted += ["coq/Base/F64.v: Flocq 4.1 BinarySingleNaN (prec 53, emax 1024, RNE) as the meaning of double; "
+    ck.trusted += ["translate/fitness_ops.py (how fitness.tcc / model_measurements.h derive each relational operator, "
+                   "dominating and model_measurements >=) and coq/Fitness/FitnessSrc.v as the meaning of its output",
+                   "coq/Base/F64.v: Flocq 4.1 BinarySingleNaN (prec 53, emax 1024, RNE) as the meaning of double; "
                    "std::round = Bnearbyint mode_NA, std::sqrt = Bsqrt, std::fabs/abs = Babs",
                    "hand-written model coq/Fitness/FitnessDefs.v (tied by correspondence only)",
                    "extraction: ExtrOcamlBasic only, no Extract Constant; ocaml/fitness_driver.ml + zutil.ml",
